@@ -78,6 +78,20 @@ def check(case):
             klass, ns = subclasses.NamespaceHashClient, subclasses._ns
         hc = klass(config, socket_module=env.net, key_prefix=prefix, use_pooling=case.get("pooling", False), default_noreply=False)
         keys = list(case["keys"])          # entries: key | (server_key, key)
+        # keys that carry the key prefix themselves: next to some key K the caller also uses the different key prefix+K
+        # (on the server: prefix+prefix+K) - str or bytes like its twin
+        if prefix and prefix.isascii():
+            have = {(inner_ if isinstance(inner_, bytes) else inner_.encode()) for inner_ in (k[1] if isinstance(k, tuple) else k for k in keys)}
+            for idx in case.get("nest") or ():
+                if not keys:
+                    break
+                k0 = keys[idx % len(keys)]
+                k0 = k0[1] if isinstance(k0, tuple) else k0
+                twin = prefix + k0 if isinstance(k0, bytes) else prefix.decode() + k0
+                tb = twin if isinstance(twin, bytes) else twin.encode()
+                if tb not in have and len(prefix + tb) <= 250:
+                    have.add(tb)
+                    keys.insert((idx * 7) % (len(keys) + 1), twin)
         desc = "servers %r%s pooling=%r prefix=%r%s" % (names, " configured as %r" % (config,) if case.get("spell") else "", case.get("pooling", False), prefix,
                                                       " (namespace subclass)" if case.get("subclass") else "")
 
@@ -347,7 +361,7 @@ def case_strategy(tier):
         ["incr", "decr", "touch", "gat", "gats", "append", "prepend", "replace", "add", "cas", "delete", "get"])}), max_size=12)
     dups = st.lists(st.tuples(st.sampled_from(["dup\x7fkey", "d\x7f2", "\x7fx"]), st.lists(st.sampled_from(["tenant-a", "tenant-b", "sk3", "sk4", "zz"]), min_size=2, max_size=4, unique=True)).map(list),
                     max_size=2)
-    return st.fixed_dictionaries({"addrs": servers, "pooling": st.booleans(), "prefix": st.sampled_from([b"", b"", b"p:", b"\xffns/"]),
+    return st.fixed_dictionaries({"addrs": servers, "pooling": st.booleans(), "prefix": st.sampled_from([b"", b"", b"p:", b"p:", b"\xffns/"]), "nest": st.lists(st.integers(0, 60), max_size=3),
                                   "keys": keys2, "script": script, "dups": dups, "spell": st.one_of(st.none(), st.lists(st.integers(0, 4), min_size=1, max_size=5)),
                                   "subclass": st.sampled_from([None, None, "namespace"]),
                                   "coll": st.sampled_from(["list", "list", "tuple", "iter", "generator", "map", "dictview", "wrapper"])})
@@ -361,7 +375,7 @@ def grid_cases(tier, seed):
             keys = [k.encode() if i % 3 == 0 else k for i, k in enumerate(keys)]
             keys = [(("sk%d" % (i % 4)) if i % 15 else "", k) if i % 5 == 0 else k for i, k in enumerate(keys)]
             yield {"addrs": SERVER_POOL[:n - 1] + [SERVER_POOL[-1]], "pooling": pooling, "prefix": b"g:" if n % 2 else b"",
-                   "keys": keys, "script": [{"i": i, "op": op} for i, op in enumerate(
+                   "keys": keys, "nest": [3, 11, 22, 40], "script": [{"i": i, "op": op} for i, op in enumerate(
                        ["incr", "touch", "gat", "append", "cas", "delete", "add", "decr", "gats", "prepend", "replace", "get"])],
                    "dups": [["dup\x7fkey", ["tenant-a", "tenant-b", "sk3", "sk4"]], ["d\x7f2", ["a", "b", "c", "d", "e"]]], "coll": coll,
                    "spell": None if coll == "list" else [n + pooling, 3, 1, 4, 2], "subclass": "namespace" if coll in ("list", "generator") and n > 1 else None}
